@@ -19,8 +19,8 @@ import (
 type C06Case struct {
 	Cfg         gen.Config `json:"cfg"`
 	Data        gen.Recipe `json:"data"`
-	SrcSizes    []int      `json:"src_sizes"`            // sizes of the successive short reads of the source (last repeats)
-	ReadBufs    []int      `json:"read_bufs,omitempty"`  // Read buffer lengths (last repeats)
+	SrcSizes    []int      `json:"src_sizes"`           // sizes of the successive short reads of the source (last repeats)
+	ReadBufs    []int      `json:"read_bufs,omitempty"` // Read buffer lengths (last repeats)
 	ReadJobs    uint       `json:"read_jobs"`
 	WriteSizes  []int      `json:"write_sizes,omitempty"` // partition of the plain data into Write calls
 	EOFWithData bool       `json:"eof_with_data,omitempty"`
